@@ -412,8 +412,14 @@ type outcome struct {
 	Selectors  []selector
 	PresentNow map[string]bool
 	NoSamples  map[string]bool
-	// NoSamplesExt: no sample in the window extended by the 2h pint's range slicing may reach back further
-	NoSamplesExt map[string]bool
+	// InZone: the metric has at least one sample inside the slice-alignment zone - between the 2h-grid instant
+	// at or before (now - lookback), where pint's first range-query slice starts, and the start of the lookback
+	// window. Computed from the case's database (see alignmentZone).
+	InZone map[string]bool
+	// Unreported: selectors clause (2) demands a Bug for and that did not get one.
+	Unreported []selector
+	// FalseMissing: number of clause (1) violations.
+	FalseMissing int
 	Log          []promsrv.Request
 	Skip         string
 }
@@ -447,8 +453,6 @@ func check(c Case) (out outcome, err error) {
 
 	lb := c.lookback()
 	window := fmt.Sprintf("%ds", int((lb + 10*time.Minute).Seconds()))
-	windowExt := fmt.Sprintf("%ds", int((lb + 2*time.Hour + 10*time.Minute).Seconds()))
-	out.NoSamplesExt = map[string]bool{}
 	probe := func(at time.Time) (map[string]bool, map[string]bool, error) {
 		present, empty := map[string]bool{}, map[string]bool{}
 		for _, s := range sels {
@@ -463,11 +467,6 @@ func check(c Case) (out outcome, err error) {
 					return nil, nil, err
 				}
 				empty[s.Metric] = n == 0
-				n, err = promsrv.InstantCount(db, fmt.Sprintf("count_over_time({__name__=%q}[%s])", s.Metric, windowExt), at)
-				if err != nil {
-					return nil, nil, err
-				}
-				out.NoSamplesExt[s.Metric] = n == 0
 			}
 		}
 		return present, empty, nil
@@ -508,6 +507,12 @@ func check(c Case) (out outcome, err error) {
 		}
 	}
 	out.PresentNow, out.NoSamples = p0, e0
+	out.InZone = map[string]bool{}
+	for _, at := range []time.Time{anchor, time.Now()} { // pint read the clock somewhere in between
+		for m, in := range alignmentZone(db, at, lb) {
+			out.InZone[m] = out.InZone[m] || in
+		}
+	}
 
 	mainFound := false
 	for _, e := range res.Entries {
@@ -546,6 +551,7 @@ func check(c Case) (out outcome, err error) {
 		if p0[s.Text] {
 			for _, p := range out.Problems {
 				if p.Summary == "query on nonexistent series" && overlaps(p, s) {
+					out.FalseMissing++
 					errs = append(errs, fmt.Sprintf("(1) false missing: an instant query for `%s` returns series, yet pint reports [%s] %s", s.Text, p.Severity, p.Message))
 				}
 			}
@@ -559,6 +565,7 @@ func check(c Case) (out outcome, err error) {
 				}
 			}
 			if !found {
+				out.Unreported = append(out.Unreported, s)
 				errs = append(errs, fmt.Sprintf("(2) not reported: metric `%s` has no sample in the last %s, no rule records it, no exemption covers `%s`, yet no promql/series Bug points at it", s.Metric, lb, s.Text))
 			}
 		}
@@ -588,49 +595,79 @@ func check(c Case) (out outcome, err error) {
 	return out, nil
 }
 
-// knownClass names the listed structural class a failing case falls into ("" = none).
-//
-//	"samples-just-before-lookback-window": a completeness failure where every unreported selector's metric has
-//	   samples in the 2h before the lookback window starts (pint's range slicing starts at a 2h-aligned instant
-//	   before the requested start, so pint sees them).
-//	"nested-join-selector-not-checked": a completeness failure where every unreported selector sits two or more
-//	   join levels deep (`a * (b + c)`: c) - getNonFallbackSelectors only looks at the first level of Joins.
-//	"comment-first-matcher-only": a completeness failure for a selector that a disable/snooze comment covers
-//	   under pint's first-matcher-only comparison but not under the documented all-matchers rule.
-func knownClass(c Case, out outcome, err error) string {
-	if err == nil || !strings.Contains(err.Error(), "(2) not reported") || strings.Contains(err.Error(), "(1) false missing") {
-		return ""
-	}
-	var classes []string
-	for _, s := range out.Selectors {
-		if s.Metric == "" || !out.NoSamples[s.Metric] || c.produced(s.Metric) || c.exemption(s, covered) != "" {
-			continue
-		}
-		reported := false
-		for _, p := range out.Problems {
-			if p.Severity == "Bug" && p.Summary != "invalid comment" && overlaps(p, s) {
-				reported = true
+// sliceGrid is the grid pint aligns its range-query slices to (promapi.RangeQuery: (2h).Round(step), which is 2h
+// for every step the cases use).
+const sliceGrid = 2 * time.Hour
+
+// alignmentZone reports, per metric name, whether the database holds a sample that a range query over
+// [now-lookback, now] sliced the way pint slices it can see although it lies before the lookback window: pint's
+// first slice starts at the sliceGrid instant at or before (now - lookback), and an evaluation step at t sees
+// samples in (t - 5m, t]. The zone ends 10 minutes before the window start, where the oracle's own window
+// (lookback + 10m) begins, so "in the zone" and "in the window" never overlap.
+func alignmentZone(db *promsrv.DB, now time.Time, lookback time.Duration) map[string]bool {
+	start := now.Add(-lookback)
+	zoneStart := start.Truncate(sliceGrid) // aligned to even UTC hours, like time.Round in sliceRange
+	lo := zoneStart.Add(-promsrv.LookbackDelta).UnixMilli()
+	hi := start.Add(-10 * time.Minute).UnixMilli()
+	out := map[string]bool{}
+	for _, ser := range db.Series {
+		name := ser.Labels["__name__"]
+		for _, p := range ser.Points {
+			if p.T > lo && p.T <= hi {
+				out[name] = true
+				break
 			}
 		}
-		if reported {
-			continue
+	}
+	return out
+}
+
+// explanations lists the structural classes (names used in /verif/known_findings.json) that can explain why
+// selector s - one that clause (2) demands a Bug for - did not get one.  All are computed from the case
+// (expression, comments, database), never from pint's output or the error text.
+//
+//	"samples-just-before-lookback-window": the selector's metric has no sample inside [now-lookback, now] (that is
+//	   what makes clause (2) apply) but has at least one inside the alignment zone, i.e. between the 2h slice-grid
+//	   instant at or before now-lookback and now-lookback. pint's sliced range query returns those samples, so the
+//	   metric looks "present in the past" (Warning "only sometimes present", or a label-level verdict) instead of absent.
+//	"nested-join-selector-not-checked": the selector sits two or more join levels deep (`a * (b + c)`: c).
+//	"comment-first-matcher-only": a disable/snooze comment covers the selector under a first-matcher-only
+//	   comparison but not under the documented all-matchers rule.
+func explanations(c Case, out outcome, s selector) (classes []string) {
+	if out.InZone[s.Metric] {
+		classes = append(classes, "samples-just-before-lookback-window")
+	}
+	if s.JoinDepth >= 2 {
+		classes = append(classes, "nested-join-selector-not-checked")
+	}
+	if c.exemption(s, pintCovers) != "" {
+		classes = append(classes, "comment-first-matcher-only")
+	}
+	return classes
+}
+
+// knownFinding decides whether a failing case lies entirely inside listed known classes: the failure must consist
+// of clause-(2) misses only, and every unreported selector must have an explanation whose class is listed.
+func knownFinding(c Case, out outcome, err error, known map[string]string) (id string, ok bool) {
+	if err == nil || len(out.Unreported) == 0 || out.FalseMissing > 0 {
+		return "", false
+	}
+	for _, s := range out.Unreported {
+		found := ""
+		for _, cl := range explanations(c, out, s) {
+			if kid, listed := known[cl]; listed {
+				found = kid
+				break
+			}
 		}
-		switch {
-		case s.JoinDepth >= 2:
-			classes = append(classes, "nested-join-selector-not-checked")
-		case !out.NoSamplesExt[s.Metric]:
-			classes = append(classes, "samples-just-before-lookback-window")
-		case c.exemption(s, pintCovers) != "":
-			classes = append(classes, "comment-first-matcher-only")
-		default:
-			return "" // some unreported selector is not explained by a known class
+		if found == "" {
+			return "", false
+		}
+		if id == "" {
+			id = found
 		}
 	}
-	if len(classes) == 0 {
-		return ""
-	}
-	sort.Strings(classes)
-	return classes[0]
+	return id, true
 }
 
 // ---------------------------------------------------------------------------
@@ -981,6 +1018,9 @@ func TestPropSeries(t *testing.T) {
 				rec.Count("selectors_present_now", 1)
 			case out.NoSamples[s.Metric] && !c.produced(s.Metric) && c.exemption(s, covered) == "":
 				rec.Count("selectors_must_be_reported", 1)
+				if out.InZone[s.Metric] {
+					rec.Count("selectors_must_be_reported_with_samples_in_alignment_zone", 1)
+				}
 			case out.NoSamples[s.Metric]:
 				rec.Count("selectors_empty_but_exempt_or_produced", 1)
 			default:
@@ -988,8 +1028,9 @@ func TestPropSeries(t *testing.T) {
 			}
 		}
 		if err != nil {
-			if id, ok := known[knownClass(c, out, err)]; ok {
+			if id, ok := knownFinding(c, out, err, known); ok {
 				rec.KnownHit(id, c)
+				rec.Count("known_class_cases", 1)
 				return
 			}
 			rec.Fail(c, err)
